@@ -128,6 +128,8 @@ pub fn hist_reset() {
 /// Record that `step` is about to be executed.
 #[inline]
 pub fn hist_push(step: u64) {
+    // a new operation starts: the callback budget (hang detector) is per operation
+    CB_COUNT.with(|c| c.set(0));
     if let Some(s) = my_slot() {
         let n = s.len.load(Ordering::Relaxed);
         if n < MAX_HIST {
